@@ -280,10 +280,12 @@ class DiagService(DiagComm):
                         service=self,
                         coding_object=coding_object,
                         param_dict=coding_object.decode(raw_message)))
-            except DecodeMismatch:
+            except DecodeError:
                 # An NRC-CONST or environment data parameter
-                # encountered a non-matching value -> coding object
-                # does not apply
+                # encountered a non-matching value or the message
+                # cannot be decoded by the coding object for another
+                # reason (e.g., it is too short) -> coding object does
+                # not apply
                 pass
 
         if len(result_list) < 1:
